@@ -3,7 +3,7 @@
 use super::has_tag;
 use crate::chain::{Outcome, World, KEY_CONTRACT_INFO};
 use crate::exec::{Judge, Prop, StepView};
-use crate::model::{self, cfg_equiv, Ctx, Req, Verdict};
+use crate::model::{self, Ctx, Req, Verdict};
 use crate::num::{parse, Parsed};
 use crate::wire::{self, Cfg, CfgChange};
 use cosmwasm_std::testing::MockApi;
@@ -34,7 +34,7 @@ fn judge_modify(j: &mut Judge, exp: &model::Expect, out: &Outcome, before_cfg: &
         }
     }
     if let (Some(e), Some(after)) = (exp.alts.first(), after_cfg) {
-        if !cfg_equiv(&e.cfg, after) {
+        if &e.cfg != after {
             j.violate(
                 Prop::C12,
                 "installed-exactly",
@@ -385,7 +385,7 @@ pub fn c13_after_instantiate(j: &mut Judge, w: &World, msg: &Value, out: &Outcom
         increment: s("size_increment").parse().unwrap_or(0),
     };
     match &book.cfg {
-        Some(c) if cfg_equiv(c, &want) => {}
+        Some(c) if c == &want => {}
         other => j.violate(
             Prop::C13,
             "stored-configuration",
@@ -396,7 +396,7 @@ pub fn c13_after_instantiate(j: &mut Judge, w: &World, msg: &Value, out: &Outcom
     // the same through the queries
     match w.query(&serde_json::to_vec(&wire::q_contract_info()).unwrap()) {
         Ok(bytes) => match wire::decode_cfg(&bytes) {
-            Ok(c) if cfg_equiv(&c, &want) => {}
+            Ok(c) if c == want => {}
             other => j.violate(
                 Prop::C13,
                 "stored-configuration",
